@@ -263,18 +263,10 @@ def builtin_expected(gas, data, fields, recipe, sp_idx, rx_idx, pressure):
     return np.asarray(val)[..., sp_idx]
 
 
-def run_builtin_case(seed):
+def thermo_plotfile(seed, rng, nprng):
+    """a 3D plotfile carrying the h2o2 mechanism's mass fractions and a temperature (plus a few other fields), with cells
+    without a state (T = 0 and Y = 0) and cells where only one of the two is zero -> (pf, fields, gas, sp, covered, half)"""
     import cantera as ct
-    from amr_kitchen.chef import Chef
-    rng = random.Random(seed)
-    nprng = np.random.default_rng(seed)
-    model = core.W['model']
-    out = dict(evals=0, keys=[], dist={}, samples=[], violations=[], disagreements=[])
-    dist = out['dist']
-
-    def count(k):
-        dist[k] = dist.get(k, 0) + 1
-
     gas = ct.Solution(MECH)
     sp = [s.name for s in gas.species()]
     before = rng.sample(['density', 'x_velocity'], rng.randint(0, 2))
@@ -311,6 +303,22 @@ def run_builtin_case(seed):
                     else:
                         d[c + (slice(y0, y0 + len(sp)),)] = 0.0
                     half += 1
+    return pf, fields, gas, sp, covered, half
+
+
+def run_builtin_case(seed):
+    import cantera as ct
+    from amr_kitchen.chef import Chef
+    rng = random.Random(seed)
+    nprng = np.random.default_rng(seed)
+    model = core.W['model']
+    out = dict(evals=0, keys=[], dist={}, samples=[], violations=[], disagreements=[])
+    dist = out['dist']
+
+    def count(k):
+        dist[k] = dist.get(k, 0) + 1
+
+    pf, fields, gas, sp, covered, half = thermo_plotfile(seed, rng, nprng)
     keys = list(fields)
     fidx = {k: i for i, k in enumerate(keys)}
     img = diskimg.image_of(pf)
